@@ -90,6 +90,44 @@ func (e *PolyEnv) Facts(b *ssa.BasicBlock) []Cmp {
 	return out
 }
 
+// EdgeFacts returns the facts known when control flows from pred to succ: the facts at pred plus
+// the outcome of pred's own terminating If.
+func (e *PolyEnv) EdgeFacts(pred, succ *ssa.BasicBlock) []Cmp {
+	out := e.Facts(pred)
+	if ifi, ok := pred.Instrs[len(pred.Instrs)-1].(*ssa.If); ok && len(pred.Succs) == 2 && pred.Succs[0] != pred.Succs[1] {
+		g := Guard{Cond: ifi.Cond, True: pred.Succs[0] == succ}.Normalize()
+		if c, ok := e.CmpOf(g.Cond); ok {
+			if !g.True {
+				c.Rel = c.Rel.Negate()
+			}
+			out = append(out, c)
+		}
+	}
+	return out
+}
+
+// ProvesFrom reports whether the given facts imply q.
+func ProvesFrom(facts []Cmp, q Cmp) bool {
+	for _, f := range facts {
+		if f.Implies(q) {
+			return true
+		}
+	}
+	return false
+}
+
+// ProvesNV is Proves with store-version suffixes of field atoms ignored on both sides.
+func (e *PolyEnv) ProvesNV(b *ssa.BasicBlock, q Cmp) bool {
+	q.P = StripVersions(q.P)
+	for _, f := range e.Facts(b) {
+		f.P = StripVersions(f.P)
+		if f.Implies(q) {
+			return true
+		}
+	}
+	return false
+}
+
 // Proves reports whether the facts at block b imply q.
 func (e *PolyEnv) Proves(b *ssa.BasicBlock, q Cmp) bool {
 	if c, ok := q.P.IsConst(); ok {
